@@ -47,6 +47,8 @@ def scenario(draw) -> Dict[str, Any]:
     return {
         'seed': draw(st.integers(0, 10**6)), 'max_delay': draw(st.sampled_from([0, 1, 20, 150, 150])), 'owner': owner,
         'b_first': draw(st.booleans()), 'settle_s': draw(st.sampled_from([2, 2, 30, 200, 1200])),
+        'long_label': draw(st.sampled_from([False] * 7 + [True])),
+        'non_strict': draw(st.sampled_from([False] * 4 + [True])),
         'allow': draw(st.booleans()), 'addrs': draw(st.sampled_from([['10.0.0.2'], ['fe80::2'], ['10.0.0.2', 'fe80::2'], ['10.0.0.2', '10.0.0.3']])),
         'host_ttl': draw(st.sampled_from([120, 10])), 'other_ttl': draw(st.sampled_from([4500, 60])),
         'inject': inj, 'twice': draw(st.sampled_from([None, None, None, 0, 1, 400, 2000])),
@@ -120,7 +122,7 @@ class Exec:
                 prior_info = sim.make_service_info({'type': TYPE, 'name': cand(1), 'port': 7000, 'server': 'newcomer.local.',
                                                     'addrs': case['addrs'], 'props': '0161', 'host_ttl': case['host_ttl'],
                                                     'other_ttl': case['other_ttl']})
-                task = await b.azc.async_register_service(prior_info)
+                task = await b.azc.async_register_service(prior_info, strict=not case.get('non_strict'))
                 await task
                 await asyncio.sleep(1.5)
                 task = await b.azc.async_unregister_service(prior_info)
@@ -131,8 +133,10 @@ class Exec:
             await a.zc.async_wait_for_start()
             chain = {'x': [1], 'x+2': [1, 2], 'x+2+3': [1, 2, 3]}[case['owner']]
             for n in chain:
+                if case.get('long_label') and n > 1:
+                    continue          # (no '-N' form of the 62-byte label is a legal name for anybody)
                 d = {'type': TYPE, 'name': cand(n), 'port': 9000 + n, 'server': 'owner.local.', 'addrs': ['10.0.0.1'], 'props': ''}
-                task = await a.azc.async_register_service(sim.make_service_info(d))
+                task = await a.azc.async_register_service(sim.make_service_info(d), strict=not case.get('non_strict'))
                 await task
         if b is None:
             await asyncio.sleep(1.0)
@@ -175,7 +179,7 @@ class Exec:
                 del self.learn[alias]          # expired (possibly not yet purged) before the registration started
 
         async def reg(inf: Any) -> str:
-            task = await b.azc.async_register_service(inf, allow_name_change=case['allow'])
+            task = await b.azc.async_register_service(inf, allow_name_change=case['allow'], strict=not case.get('non_strict'))
             await task
             return inf.name
 
@@ -201,7 +205,21 @@ class Exec:
         self.frozen = True
 
 
+LONG_LABEL = 'é' * 31        # 62 bytes of UTF-8 in 31 characters: legal, but every '-N' candidate exceeds the 63-byte label limit
+
+
 def check(case: Dict[str, Any]) -> Dict[str, Any]:
+    global X, TYPE
+    X = LONG_LABEL if case.get('long_label') else 'Printer'
+    # strict=False registrations use a type only the non-strict rules accept (underscore inside, longer than 15 characters)
+    TYPE = '_ibisip_http_service._tcp.local.' if case.get('non_strict') else '_http._tcp.local.'
+    try:
+        return _check(case)
+    finally:
+        X, TYPE = 'Printer', '_http._tcp.local.'
+
+
+def _check(case: Dict[str, Any]) -> Dict[str, Any]:
     ex = Exec(case)
     delivery = sim.Delivery(seed=case['seed'], max_delay_ms=case['max_delay'])
     with sim.World(jitter_seed=case['seed'], delivery=delivery) as w:
@@ -240,6 +258,13 @@ def check(case: Dict[str, Any]) -> Dict[str, Any]:
     det: Dict[str, Any] = {'allow_name_change': case['allow'], 'result': ex.result, 'exception': name_exc,
                            'probes': {k: [rel(x) for x in v] for k, v in probes.items()},
                            'learned': {k: rel(v) for k, v in ex.learn.items()}}
+    if case.get('long_label') and name_exc == 'BadTypeInNameException' and case['allow'] and ex.learn:
+        # the name is taken and no '-N' candidate is a legal instance label (64 bytes): the documented refusal, nothing announced
+        for t, e, m in responses:
+            if any(r['ttl'] > 0 and r['type'] == 12 for r in m['an']):
+                raise Violation('registration was refused with BadTypeInNameException but a pointer was announced', det, tag='refused-but-announced')
+        return {'nontrivial': True, 'classes': ['no-legal-rename-candidate (62-byte label): refused with BadTypeInNameException'],
+                'sample': {'case': case}}
     if ex.exc is not None and name_exc not in ('NonUniqueNameException', 'ServiceNameAlreadyRegistered'):
         raise Violation(f'registration raised {name_exc}', dict(det, exc=repr(ex.exc)), tag='raised-' + str(name_exc))
     final = ex.result
@@ -350,9 +375,9 @@ def check(case: Dict[str, Any]) -> Dict[str, Any]:
         raise Violation('one instance holds the same name twice', dict(det, registry=ex.registry_names), tag='duplicate-name')
     if case['twice'] is not None and ex.second is not None and ex.second[0] == 'exc':
         n2 = type(ex.second[1]).__name__
-        if n2 not in ('NonUniqueNameException', 'ServiceNameAlreadyRegistered'):
+        if n2 not in ('NonUniqueNameException', 'ServiceNameAlreadyRegistered') and not (case.get('long_label') and n2 == 'BadTypeInNameException'):
             raise Violation(f'second registration of the same name raised {n2}', det, tag='second-raised')
-    classes = ['owner-' + case['owner'], 'allow' if case['allow'] else 'strict', 'result-' + ('registered' if final else str(name_exc))]
+    classes = ['owner-' + case['owner'], 'allow' if case['allow'] else 'strict', 'non-strict-type' if case.get('non_strict') else 'strict-type', 'result-' + ('registered' if final else str(name_exc))]
     if between:
         classes.append('conflict-learned-between-probes')
     if len(chain) >= 3:
